@@ -99,8 +99,8 @@ var props = map[string]propCfg{
 	}, RaceFiles: ioRace},
 	"C04": {Pkg: "checks/c04", Level: "exploration", Passes: []pass{
 		{Name: "plain", Shards: 16, TimeoutS: 1200, CaseTimeoutS: 30, HangSig: "hang", UlimitVKB: 6 << 20, TZ: []string{"UTC"}},
-		{Name: "race", Tier: "thorough", Race: true, Shards: 16, TimeoutS: 1800, CaseTimeoutS: 120, HangSig: "hang", TZ: []string{"UTC"}, Env: []string{"VERIF_LIGHT=1"}},
-		{Name: "asan", Tier: "thorough", Asan: true, Shards: 16, TimeoutS: 2400, CaseTimeoutS: 300, HangSig: "hang", TZ: []string{"UTC"}, Env: []string{"VERIF_LIGHT=1"}},
+		{Name: "race", Tier: "thorough", Race: true, Shards: 16, TimeoutS: 1800, CaseTimeoutS: 600, HangSig: "hang", TZ: []string{"UTC"}, Env: []string{"VERIF_LIGHT=1"}},
+		{Name: "asan", Tier: "thorough", Asan: true, Shards: 16, TimeoutS: 2400, CaseTimeoutS: 600, HangSig: "hang", TZ: []string{"UTC"}, Env: []string{"VERIF_LIGHT=1"}},
 	}, RaceFiles: ioRace},
 	"C05": {Pkg: "checks/c05", Level: "exploration", Passes: []pass{
 		{Name: "plain", Shards: 16, TimeoutS: 900, TZ: []string{"UTC"}},
